@@ -420,6 +420,12 @@ def f7_mutants(u, res, model):
                                 'where': ['entries', ei, 'senses', si, 'synset'],
                                 'must_fail': True})
                     pos += 1
+                if not s.get('external') and res['lmf_version'] != '1.0' and si == 0:
+                    out.append({'what': 'unresolvable sense->frame (subcat)', 'lex': sp,
+                                'pos': pos, 'must_fail': True,
+                                'where': ['entries', ei, 'senses', si, 'subcat'],
+                                'value': ['no-such-frame-xyz']})
+                    pos += 1
                 for ri, r in enumerate(s.get('relations', []) or []):
                     out.append({'what': 'unresolvable sense-relation target', 'lex': sp,
                                 'pos': pos, 'must_fail': True,
